@@ -19,8 +19,17 @@ def isar_type(t):
     return ISAR_TYPE.get(t, t)
 
 
-def render_isar(defs):
-    """(xml text, patch lines).  What isar cannot say (greedy arrays, bytes) is completed by patch rules."""
+def split_size(n):
+    """isar spells a two-dimensional extent as size x size2"""
+    if isinstance(n, int) and n >= 4 and n % 2 == 0:
+        return 'size="2" size2="%d"' % (n // 2)
+    return 'size="%s"' % n
+
+
+def render_isar(defs, messages=()):
+    """(xml text, patch lines).  What isar cannot say (greedy arrays, bytes) is completed by patch rules.
+    Structs named in `messages` are rendered as <message>: there every variable-size array is dynamic,
+    whatever its size attribute says."""
     out, patch = ['<xml>'], []
     for d in defs:
         if isinstance(d, S.Const):
@@ -48,17 +57,23 @@ def render_isar(defs):
                 elif m.form == S.OPT:
                     ms.append('<member name="%s" type="%s" optional="true"/>' % (m.name, t))
                 elif m.form == S.FIXED:
-                    ms.append('<member name="%s" type="%s"><dimension size="%s"/></member>' % (m.name, t, m.arg))
+                    ms.append('<member name="%s" type="%s"><dimension %s/></member>' % (m.name, t, split_size(m.arg)))
                 elif m.form == S.LIMITED:
-                    ms.append('<member name="%s" type="%s"><dimension isVariableSize="true" size="%s"/></member>' % (m.name, t, m.arg))
+                    ms.append('<member name="%s" type="%s"><dimension isVariableSize="true" %s/></member>' % (
+                        m.name, t, split_size(m.arg)))
                 elif m.form == S.DYNAMIC:
-                    ms.append('<member name="%s" type="%s"><dimension isVariableSize="true"/></member>' % (m.name, t))
+                    if d.name in messages:
+                        # in a message the size attribute of a variable-size array is only a hint
+                        ms.append('<member name="%s" type="%s"><dimension isVariableSize="true" size="7"/></member>' % (m.name, t))
+                    else:
+                        ms.append('<member name="%s" type="%s"><dimension isVariableSize="true"/></member>' % (m.name, t))
                 elif m.form == S.EXT:
                     ms.append('<member name="%s" type="%s"><dimension variableSizeFieldName="@%s"/></member>' % (m.name, t, m.arg))
                 elif m.form == S.GREEDY:
                     ms.append('<member name="%s" type="%s"><dimension size="1"/></member>' % (m.name, t))
                     patch.append('%s greedy %s' % (d.name, m.name))
-            out.append('<struct name="%s">%s</struct>' % (d.name, ''.join(ms)))
+            tag = 'message' if d.name in messages else 'struct'
+            out.append('<%s name="%s">%s</%s>' % (tag, d.name, ''.join(ms), tag))
     out.append('</xml>')
     return '\n'.join(out) + '\n', patch
 
@@ -71,8 +86,8 @@ def isar_enum_value(v):
     return str(v)
 
 
-def compile_isar(defs, workdir=None, extra_patch=()):
-    xml, patch = render_isar(defs)
+def compile_isar(defs, workdir=None, extra_patch=(), messages=()):
+    xml, patch = render_isar(defs, messages)
     patch = list(patch) + list(extra_patch)
     d = workdir or T.fresh_dir('c17')
     extra = []
@@ -100,12 +115,21 @@ def judge_batch(job):
         ref = R.Ref(defs)
         text = S.render_prophy(defs)
         a = T.compile_text(text, outs=('python',))
-        b, xml, patch = compile_isar(defs)
+        messages = [t for t, st in zip(tops, states)
+                    if st.kind == 'struct' and not any(sym[0] == 'limited' for sym in st.symbols)]
+        b, xml, patch = compile_isar(defs, messages=messages)
         try:
             if not a.ok:
                 out['harness_error'] = 'prophy text of the batch rejected: %s' % a.exc
                 return out
-            if not b.ok:
+            mb = None
+            import_error = None
+            if b.ok:
+                try:
+                    mb = T.import_generated(b.files['mi.py'])
+                except Exception as e:      # noqa
+                    import_error = '%s: %s' % (type(e).__name__, str(e)[:200])
+            if not b.ok or import_error:
                 if len(states) > 1:
                     mid = len(states) // 2
                     for half in (states[:mid], states[mid:]):
@@ -120,13 +144,14 @@ def judge_batch(job):
                 st = states[0]
                 t1, d1 = sse.state_text(st, 'X')
                 x1, p1 = render_isar(d1)
-                viol('isar-build-fails|%s|%s' % (b.exc_type, pyjudge._shape_key(ref, tops[0], st)),
+                x1, p1 = render_isar(d1, ['X'] if messages else [])
+                viol('isar-build-fails|%s|%s' % (b.exc_type if not b.ok else 'python-import', pyjudge._shape_key(ref, tops[0], st)),
                      {'schema': t1, 'defs': S.defs_to_json(d1), 'xml': x1, 'patch': p1, 'top': 'X', 'state': st.key,
-                      'detail': 'isar (+patch) build of the same types fails: %s' % str(b.exc)[:300]})
+                      'message': bool(messages),
+                      'detail': 'isar (+patch) build of the same types fails: %s' % (str(b.exc)[:300] if not b.ok else import_error)})
                 out['states'] += 1
                 return out
             ma = T.import_generated(a.files['m.py'])
-            mb = T.import_generated(b.files['mi.py'])
             na = dict((n.name, n) for n in a.nodes['m'])
             nb = dict((n.name, n) for n in b.nodes['mi'])
             vg = V.Values(ref, tier)
@@ -140,8 +165,9 @@ def judge_batch(job):
 
                 def art(detail, d=d, st=st):
                     cd = S.closure(ref.defs, [d.name])
-                    x1, p1 = render_isar(cd)
+                    x1, p1 = render_isar(cd, [d.name] if d.name in messages else [])
                     return {'schema': S.render_prophy(cd), 'defs': S.defs_to_json(cd), 'xml': x1, 'patch': p1, 'top': d.name,
+                            'message': d.name in messages,
                             'state': st.key if st else d.name, 'detail': detail}
                 if y is None or (x.byte_size, x.alignment, x.kind) != (y.byte_size, y.alignment, y.kind):
                     viol('model-layout-differs|%s' % pyjudge._shape_key(ref, d.name, st),
@@ -323,6 +349,13 @@ def isar_universe(tier, seed):
     l2 = list(U.level2('quick', seed, coarse=True))
     sts += l2[seed % 3::3]
     sts += list(U.level3('quick', seed, coarse=True))[::2]
+    reg = dict(U.BASE_HELPERS)
+    reg['F1'] = S.Struct('F1', [S.M('a', 'u8'), S.M('b', 'u16')])
+    for t in ('u8', 'u16', 'u64', 'F1', 'E'):
+        for form in (('fixed', t, 6), ('limited', t, 6), ('fixed', t, 4), ('limited', t, 8)):
+            sts.append(U.mk_state('struct', (form,), reg))
+            sts.append(U.mk_state('struct', (('plain', 'u8'), form, ('plain', 'u16')), reg))
+            sts.append(U.mk_state('struct', (form, ('dynamic', 'u8'), ('plain', 'u32')), reg))
     seen, out = set(), []
     for st in sts:
         if st.key not in seen and st.kind == 'struct':
@@ -383,12 +416,16 @@ def replay(art):
     defs = S.defs_from_json(art['defs'])
     ref = R.Ref(defs)
     a = T.compile_text(art['schema'], outs=('python',))
-    b, xml, patch = compile_isar(defs)
+    b, xml, patch = compile_isar(defs, messages=[art['top']] if art.get('message') else [])
     if not a.ok:
         return 'prophy text rejected: %s' % a.exc
     if not b.ok:
         return 'isar build fails: %s\n%s\npatch %s' % (b.exc, xml, patch)
-    ma, mb = T.import_generated(a.files['m.py']), T.import_generated(b.files['mi.py'])
+    ma = T.import_generated(a.files['m.py'])
+    try:
+        mb = T.import_generated(b.files['mi.py'])
+    except Exception as e:      # noqa
+        return 'module generated from the isar input does not import: %r\n%s\npatch %s' % (e, xml, patch)
     na = dict((n.name, n) for n in a.nodes['m'])
     nb = dict((n.name, n) for n in b.nodes['mi'])
     top = art['top']
